@@ -173,7 +173,12 @@ def gen(repo):
     nr = cats["NO_ROUTE"]
     need(r"if\s*\(\s*decision\.hasHandler\s*\)\s*\{\s*res\.status\s*=\s*%d\s*;\s*invokeWithSafetyNet\(decision\.handler,\s*req,\s*res\)\s*;\s*ranHandler\s*=\s*true\s*;\s*\}\s*else\s*\{\s*res\.status\s*=\s*404\s*;\s*res\.set_content\(\s*\"Not Found\"\s*,\s*\"text/plain\"\s*\)\s*;" % st_matched, nr, "NO_ROUTE case")
     need(r"if\s*\(\s*ranHandler\s*&&\s*\(\s*res\._suppressSend\s*\|\|\s*onResponseSuppressed\(req\.sid,\s*req,\s*res\)\s*\)\s*\)\s*\{.*?return\s*;\s*\}", php, "suppression check")
-    hd = need(r"if\s*\(\s*req\.method\s*==\s*HttpMethod::HEAD\s*\)\s*\{\s*res\.body\.clear\(\)\s*;\s*if\s*\(([^)]*)\)\s*\{\s*res\.headers\.erase\(\"Content-Length\"\)\s*;\s*\}\s*\}", php, "HEAD reconciliation").group(1)
+    hd_old = re.search(r"if\s*\(\s*req\.method\s*==\s*HttpMethod::HEAD\s*\)\s*\{\s*res\.body\.clear\(\)\s*;\s*if\s*\(([^)]*)\)\s*\{\s*res\.headers\.erase\(\"Content-Length\"\)\s*;\s*\}\s*\}", php, re.S)
+    hd_new = re.search(r"const\s+bool\s+bodylessStatus\s*=\s*\(([^)]*)\)\s*;\s*if\s*\(\s*req\.method\s*==\s*HttpMethod::HEAD\s*\|\|\s*bodylessStatus\s*\)\s*\{\s*res\.body\.clear\(\)\s*;\s*if\s*\(\s*bodylessStatus\s*\)\s*\{\s*res\.headers\.erase\(\"Content-Length\"\)\s*;\s*\}\s*\}", php, re.S)
+    if bool(hd_old) == bool(hd_new):
+        raise TranslateError("HEAD / bodyless-status reconciliation: shape not recognised")
+    bodyless_all_methods = bool(hd_new)
+    hd = (hd_new or hd_old).group(1)
     head_bodyless = [int(x) for x in re.findall(r"res\.status\s*==\s*(\d+)", hd)]
     if not head_bodyless or re.sub(r"res\.status\s*==\s*\d+|\|\||\s", "", hd):
         raise TranslateError("HEAD reconciliation: status test not recognised: %r" % hd)
@@ -279,8 +284,10 @@ def gen(repo):
         st_matched, st_head, st_autoopt, st_optstar, st_405)
     t += "def bodyNotFound : String := \"Not Found\"\ndef bodyMethodNotAllowed : String := %s\ndef textPlain : String := \"text/plain\"\n" % lstr(b405)
     t += "/-- `invokeWithSafetyNet`: both catch arms -/\ndef stHandlerThrew : Nat := %d\ndef bodyHandlerThrew : String := %s\n" % (st_net, lstr(net_body))
-    t += "/-- HEAD reconciliation: statuses for which Content-Length is erased as well -/\n"
+    t += "/-- body reconciliation: statuses for which Content-Length is erased as well as the body ... -/\n"
     t += "def headBodylessStatuses : List Nat := [%s]\n" % ", ".join(str(x) for x in head_bodyless)
+    t += "/-- ... on every request method (true) or only when the request is HEAD (false, the unrepaired code) -/\n"
+    t += "def bodylessAllMethods : Bool := %s\n" % ("true" if bodyless_all_methods else "false")
     t += "/-- `_threadPool(initial, max, ...)` and `ThreadPool`'s default `maxQueueSize` -/\n"
     t += "def poolInitial : Nat := %d\ndef poolMax : Nat := %d\ndef poolQueueCap : Nat := %d\n" % (int(ctor.group(1)), int(ctor.group(2)), qcap)
     t += "end Iora.Gen.HttpRespond\n"
